@@ -96,6 +96,9 @@ def predicate(ops, out):
             return f"panic in `{op}`"
         if o in ("err", "bad-op", "badsize", "blocked?"):
             return f"unexpected result `{o}` for `{op}`"
+        if "UNLOCKEDCMD" in o.split():
+            return (f"`{op}`: a redis command of the queue was issued while the queue's lock was NOT held — the method is then not one "
+                    "atomic step: another method's positional commands (LRANGE cur / LSET cur) can run in between")
         if "UNLOCKED" in o.split():
             return (f"`{op}`: a Notifier callback ran while the queue's lock was NOT held — the counters the queue reports are then not "
                     "updated atomically with its contents (another goroutine's report can overtake this one)")
